@@ -193,6 +193,12 @@ class Read:
                 and forall_range(0, want, lambda i: select(result, i) == select(self._parent.mem, self._start_address + self._offset + i))
                 and self_post._offset == self._offset + want)
 
+    def ensures_truncation_warning_exactly_when_cut_at_the_end_of_the_view(self, n_bytes):
+        # "reads ... are truncated at the end of the view with a truncation warning": one TruncationWarning exactly when the
+        # bytes asked for reach beyond the end of the view (a read "to the end" never does), none otherwise
+        cut = n_bytes >= 0 and self._offset + n_bytes > length(self)
+        return implies(cut, warnings_of() == ("TruncationWarning",)) and implies(not cut, len(warnings_of()) == 0)
+
     def ensures_frame(self, self_post):
         return frame_view(self, self_post)
 
@@ -229,6 +235,12 @@ class Write:
         base = self._start_address + self._offset
         return (result == want and self_post._offset == self._offset + want
                 and forall_range(0, want, lambda i: select(self_post._parent.mem, base + i) == select(bytes, i)))
+
+    def ensures_truncation_warning_exactly_when_cut_at_the_end_of_the_view(self, bytes):
+        # one TruncationWarning exactly when the data reaches beyond the end of the view; a write that fits - also one that
+        # ends exactly on the last byte, and an empty one - is not reported as truncated
+        cut = self._offset + seq_len(bytes) > length(self)
+        return implies(cut, warnings_of() == ("TruncationWarning",)) and implies(not cut, len(warnings_of()) == 0)
 
     def ensures_changes_no_other_byte(self, bytes, self_post):
         want = transferable(self, seq_len(bytes))
